@@ -40,6 +40,15 @@ CHECKS = {
              "in a fresh job.",
         design="DESIGN.md section 3 C05", technique="exhaustive enumeration of (program, event history) pairs on the compiled generated code; differential oracle per history position",
         note=NOTE_EDM + " A faulting event ends its job, histories are cut there. Absolute values are C01's business."),
+    "C06": dict(
+        text="Product enumeration over every built-in collection of every backend (6+1 ATLAS, 5 CMS AOD, 3 miniAOD) x banks {A, B, absent} x position templates "
+             "(count, values, rows, same collection twice with the same / different banks, behind a Where, every ordered pair of different collections side by side and "
+             "nested, singleton as value / with a collection / absent / misused as a sequence), metadata-declared collections (new, overriding a built-in, next to a "
+             "built-in, singleton, declared for each other backend, used and unused), malformed declarations (each required key missing, unknown key, element_type vs "
+             "contains_collection mismatch) and malformed calls (0 / 2 / non-string / computed arguments). Oracle: (container type, bank) requests logged by the model "
+             "store, loud failure and no row on a missing bank, one consumes<> token per use on miniAOD, each header / link library exactly once, values.",
+        design="DESIGN.md section 3 C06", technique="exhaustive product enumeration of collections x banks x positions x declarations, request log of the executed generated code",
+        note=NOTE_EDM + " Expected container types / headers / libraries come from an independent table in mc/checks/c06.py."),
     "C07": dict(
         text="Explicit-state BFS in which the real process is the state machine: a state is an event history (new executor / attach extended "
              "metadata / translate menu query q on live executor i, where the menu holds succeeding queries and queries failing at each stage that "
